@@ -211,6 +211,16 @@ pub fn generate(rng: &mut Rng, prop: Prop) -> Scenario {
                 }
             }
         }
+        if batch >= 1 && rng.chance(1, 30) {
+            // a record around the cap whose payload is really present (decodable CCS bytes or alerts)
+            let n = *rng.pick(&[16638usize, 16640, 16641, 16642, 16644, 17000]);
+            seqno = (seqno + 1) & 0xffff_ffff_ffff;
+            if rng.chance(1, 2) {
+                recs.push(Rec { ctype: 20, ver, epoch, seqno, content: Content::Raw(vec![1; n]), declen: None });
+            } else {
+                recs.push(Rec { ctype: 21, ver, epoch, seqno, content: Content::Raw([1u8, 0].repeat(n / 2)), declen: None });
+            }
+        }
         if batch >= 1 {
             // framing faults on individual records
             for r in recs.iter_mut() {
@@ -676,6 +686,9 @@ pub fn execute(scn: &Scenario, ctx: &mut Ctx) {
         if dg.recs.len() > 1 {
             ctx.fault("multi-record-datagram");
         }
+        if dg.recs.iter().any(|r| r.end - r.start > 13 + 16000) {
+            ctx.fault("cap-sized-record");
+        }
         ctx.log(0xd6, d as u64, cut as u64);
 
         // ---- C16: many-parser vs explicit loop on the datagram as delivered
@@ -748,7 +761,7 @@ pub fn execute(scn: &Scenario, ctx: &mut Ctx) {
                 Frame::Partial { .. } => 2,
                 Frame::Complete { .. } => 3,
             };
-            ctx.cell("dframe", fcell * 4 + match t { 20 => 0, 21 => 1, 22 => 2, _ => 3 });
+            ctx.cell("dframe", fcell * 4 + match sub.first().copied().unwrap_or(0) { 20 => 0, 21 => 1, 22 => 2, _ => 3 });
             ctx.trace(0xd7, p.out.code() & 0xfffff | (t as u64) << 24, sub.len());
             match f {
                 Frame::NeedHeader => {
